@@ -440,6 +440,7 @@ func genC13(r *Rng, idx int, tier string) *World {
 			op.Name = fmt.Sprintf("rt%d", i)
 			if len(routers) > 0 && r.Pct(12) {
 				op.Name = pick(r, routers) // a name that is taken: Add/New must refuse it
+				op.HID = r.Intn(2)
 			} else {
 				routers = append(routers, op.Name)
 			}
@@ -550,9 +551,13 @@ func buildC13(w *World, upto int, only string) *c13Group {
 				spec := decodeSpec(op.Args[0])
 				if routers[op.Name] != nil {
 					// the name is taken: the call must be refused (it panics) and change nothing
-					if op.K == "gnew" {
+					switch {
+					case op.K == "gnew":
 						cg.g.New(op.Name, buildMatcher(spec))
-					} else {
+					case op.HID%2 == 0:
+						// the member router object itself, offered again with another matcher
+						cg.g.Add(buildMatcher(spec), routers[op.Name])
+					default:
 						cg.g.Add(buildMatcher(spec), NewSimRouter(env, RouterOpts{Name: op.Name}))
 					}
 					cg.dupAccepted = append(cg.dupAccepted, op.Name)
